@@ -128,11 +128,19 @@ def loopUp {α : Type} : Nat → (Nat → α → α) → α → α
 
 /-! ## raw matrices -/
 
-abbrev Mat := Nat → Nat → ExtRat
+/-- a matrix of extended rationals.  (A structure around the lookup function rather than the bare
+function type, so that the compiled code evaluates a stored value once, when it is stored.) -/
+structure Mat where
+  f : Nat → Nat → ExtRat
+
+instance : CoeFun Mat (fun _ => Nat → Nat → ExtRat) := ⟨Mat.f⟩
 
 namespace Mat
 
-def set (m : Mat) (i j : Nat) (v : ExtRat) : Mat := fun a b => if a = i ∧ b = j then v else m a b
+def set (m : Mat) (i j : Nat) (v : ExtRat) : Mat := ⟨fun a b => if a = i ∧ b = j then v else m a b⟩
+
+@[simp] theorem set_apply (m : Mat) (i j : Nat) (v : ExtRat) (a b : Nat) :
+    (m.set i j v) a b = if a = i ∧ b = j then v else m a b := rfl
 
 /-- `for h: m[h][h] := v`, descending (`BD_Shape`) -/
 def diagDown (k : Nat) (v : ExtRat) (m : Mat) : Mat := loopDown k (fun h m => m.set h h v) m
@@ -150,7 +158,7 @@ theorem diagDown_apply (k : Nat) (v : ExtRat) (m : Mat) (a b : Nat) :
     have := ih (m.set k k v)
     simp only [diagDown, loopDown] at this ⊢
     rw [this]
-    simp only [set]
+    simp only [set_apply]
     by_cases h3 : a = b ∧ a < k + 1
     · rw [if_pos h3]
       by_cases h1 : a = b ∧ a < k
@@ -164,7 +172,7 @@ theorem diagUp_apply (k : Nat) (v : ExtRat) (m : Mat) (a b : Nat) :
   | zero => simp [diagUp, loopUp]
   | succ k ih =>
     simp only [diagUp, loopUp] at ih ⊢
-    simp only [set, ih]
+    simp only [set_apply, ih]
     by_cases h3 : a = b ∧ a < k + 1
     · rw [if_pos h3]
       by_cases h2 : a = k ∧ b = k
@@ -439,7 +447,7 @@ theorem strongCoherenceM_diag (up : Rat → ExtRat) (dim : Nat) (m : Mat) (h : N
         · rfl
         · split
           · rfl
-          · simp only [Mat.set]
+          · simp only [Mat.set_apply]
             split
             · omega
             · rfl
@@ -454,11 +462,11 @@ theorem tightenUnary_diag (up : Rat → ExtRat) (dim : Nat) (m : Mat) (h : Nat) 
     generalize loopUp r _ m = m' at ih ⊢
     rw [← ih]
     have s1 : ∀ (m : Mat) v, m.set (2 * r) (2 * r + 1) v h h = m h h := by
-      intro m v; simp only [Mat.set]; split
+      intro m v; simp only [Mat.set_apply]; split
       · omega
       · rfl
     have s2 : ∀ (m : Mat) v, m.set (2 * r + 1) (2 * r) v h h = m h h := by
-      intro m v; simp only [Mat.set]; split
+      intro m v; simp only [Mat.set_apply]; split
       · omega
       · rfl
     split <;> split <;> simp only [s1, s2]
@@ -638,7 +646,7 @@ def linEval (e : Nat → Int) (x : Nat → Rat) : Nat → Rat
 /-! ## building and printing matrices (driver, examples) -/
 
 /-- matrix from rows; missing entries are `+∞` -/
-def Mat.ofLists (rows : List (List ExtRat)) : Mat := fun i j => (rows.getD i []).getD j pinf
+def Mat.ofLists (rows : List (List ExtRat)) : Mat := ⟨fun i j => (rows.getD i []).getD j pinf⟩
 
 /-- the first `rows` rows, row `i` up to column `rowLen i` -/
 def Mat.toLists (rows : Nat) (rowLen : Nat → Nat) (m : Mat) : List (List ExtRat) :=
